@@ -116,4 +116,88 @@ PROPS = {
         'technique': 'Coq reflection over a source-derived table + Coq proof of gate refusal frame property + differential replay of the ACL matrix',
         'assumptions': ['refused_unchanged is stated for instants at which nothing stored is expired (reading a gate property purges expired items, C07)'],
     },
+    'C03': {
+        'props_file': 'props/C03.v',
+        'domains': [{'name': 'loc-query', 'quick': 400, 'thorough': 20000, 'thorough_shards': 10}],
+        'spec_ops': ['query'],
+        'corr': 'corr.loc (CorrLoc.check_loc: Location.Query replayed through Query.parse_query/exec over the location model) and the denotational judge CorrLoc.spec_query (QuerySpec.den over the index-free search)',
+        'rule': 'loc-query: histories of 20-45 ops on 1-2 locations (either state kind, a parent in 1 of 4), 40% of them Location.Query with random query trees '
+                '(depth <= 3, arity 0..3, and/or/not/empty, shortCircuit spelled four ways, patterns derived from stored facts sharing the variables ?x ?y ?z, '
+                'code terms from the script template family: literals, variable references, strict comparisons, object results, throw, syntax error), '
+                'the rest adds/removes/reloads; non-trivial = at least 3 distinct (op, outcome) kinds; distinct by hash of inputs',
+        'refuted': ['exec_correct_unknown_script_counterexample (unknown scripts; never produced by ParseQuery)'],
+        'level_text': 'Coq theorems over the executable model of core/query.go: exec_correct (for every query tree, incoming binding list and pure fact search the evaluator returns exactly the '
+                      'concatenation of the denotational meaning den of the query for each incoming binding - list equality, hence multiset equality - and fails exactly when some evaluation fails), '
+                      'exec_linear, empty_identity, and_nil/and_cons, or_concat, or_shortcircuit_first_nonempty, not_filter, code_keep_iff, code_error_aborts, pattern_exact, extend_bindings_spec, exec_total. '
+                      'Tie to the code: Location.Query on generated query trees must return the multiset the model returns, and every observed result is judged by den (extracted) over the linear search.',
+        'level_note': 'Scripts are not interpreted: code terms take their meaning from a template family (Query.cexpr) rendered to JavaScript by the harness; the theorems quantify over an arbitrary script table. '
+                      'otto (dependency) is trusted to implement the templates; two otto facts are modelled: Go nil is `undefined` in a script, and exported script-built objects drop null properties. '
+                      'External fact services (pattern queries with other locations) are not modelled.',
+        'technique': 'Coq refinement proof (nested induction on query trees) of the evaluator against a denotational spec + differential testing of Location.Query with the spec as oracle',
+        'assumptions': ['fact search is pure during a query (nothing expires while it runs); otherwise the state-threading equations exec_state_threading apply',
+                        'otto evaluates the template scripts as their Gallina meaning says'],
+    },
+    'C06': {
+        'props_file': 'props/C06.v',
+        'domains': [{'name': 'loc-durable', 'quick': 300, 'thorough': 12000, 'thorough_shards': 12}],
+        'spec_ops': ['reload', 'addfact', 'addrule', 'remfact', 'remrule', 'clear', 'enablerule', 'setparents', 'search', 'getfact', 'getrule', 'event'],
+        'corr': 'corr.loc (CorrLoc.check_loc) on the durable profile: MemStorage and BoltDB (temp file), one injected storage failure per location instance (failing call index 0..29), optional crash (reload right after the failing call); judges: reload equivalence, failure reporting, stored contents of search results',
+        'rule': 'loc-durable: histories of 20-45 fact/rule/property/parent operations with frequent reloads on either state kind over MemStorage or BoltDB; in 2 of 3 cases the n-th storage call '
+                '(n uniform in 0..29) of the location instance fails once; in half of the cases the location is rebuilt from storage immediately after the failing call (crash point between two storage writes); '
+                'every local search result carries the stored document (parsed) and must equal the model\'s fact; non-trivial = at least 3 distinct (op, outcome) kinds; distinct by hash of inputs',
+        'refuted': ['hook_reject_leaves_residue_counterexample', 'failed_add_modifies_memory_counterexample', 'failed_clear_empties_memory_counterexample', 'purge_errors_swallowed_example', 'load_expired_record_in_facts_counterexample'],
+        'level_text': 'Coq theorems over the executable state model, for every history (fold over operation lists), both state kinds: store_mirrors_memory, reload_same_facts / reload_equiv_reachable '
+                      '(a location rebuilt from storage has the same ids, contents, expiry instants and index invariants), prepare_idempotent, storage_failure_is_reported (every failing call index), '
+                      'ops_touch_only_named_ids (every crash/failure point: an interrupted add touches only its id, an interrupted removal only loses keys of the deleteWith closure). '
+                      'Tie to the code: fault-injecting Storage wrapper at every call index, crash/reload at the failure, MemStorage and BoltDB, replayed op by op through the extracted model.',
+        'level_note': 'Partial: BoltDB transaction atomicity and durability are trusted (a reopen is the identity on the stored pairs); the memory-safety defect of BoltStorage.Load (slices into the memory map) was found by this check and repaired (fix: commit in /repo). '
+                      'The theorems about reload are stated at instants at which nothing stored is expired (expiry: C07).',
+        'technique': 'Coq invariant proofs over operation histories with a failing-call oracle + differential replay with fault injection and crash/reload on two storage back ends',
+        'assumptions': ['encoding/json round-trips the JSON fragment', 'BoltDB transactions are atomic and durable', 'sequential histories'],
+        'partial': 'BoltDB crash atomicity and memory safety are runtime facts outside the model',
+    },
+    'C07': {
+        'props_file': 'props/C07.v',
+        'domains': [{'name': 'loc-expiry', 'quick': 96, 'thorough': 1500, 'thorough_shards': 5, 'timeout': 3000}],
+        'spec_ops': ['getfact', 'getrule', 'search', 'event'],
+        'corr': 'corr.loc (CorrLoc.check_loc) on the expiry profile: real-time histories with 1-3 s expiries; every op carries the clock before and after the call, both instants are tried (ambiguous steps are counted)',
+        'rule': 'loc-expiry: timed histories (14-22 ops, sleeps of 1-2 s in a quarter of the steps) writing facts and rules with one of the encodings ttl number, ttl duration string, expires number, expires RFC3339, '
+                'already-expired, malformed ttl; observed by get/search/dispatch/reload before and after the expiry instant, both state kinds; 32 histories run concurrently; '
+                'non-trivial = at least 3 distinct (op, outcome) kinds; distinct by hash of inputs',
+        'level_text': 'Coq theorems over the executable state model: expiry_instant_fixed_at_write (all four encodings), expired_write_rejected, stored_facts_never_modified / expiry_instant_never_moves (over histories: no read or reload moves an instant), '
+                      'get_visible_iff (visible iff stored and strictly before E), purged_once_seen, search_never_returns_expired and find_never_returns_expired (ANY state, no assumption on what has expired), never_expires_without_expiry, load_drops_expired. '
+                      'Tie to the code: real-time histories replayed through the extracted model with the recorded clock brackets.',
+        'level_note': 'RFC3339 parsing is done by the harness (time.Parse) and handed to the model as seconds; durations are modelled for the "<n>s" form. An op whose clock bracket contains an expiry instant is accepted under either reading.',
+        'technique': 'Coq proofs over timed operation histories + differential replay of real-time histories with clock brackets',
+        'assumptions': ['the instant the code reads lies inside the recorded bracket [t, t2]', 'time.Parse is correct on RFC3339'],
+    },
+    'C09': {
+        'props_file': 'props/C09.v',
+        'domains': [{'name': 'loc-forest', 'quick': 400, 'thorough': 20000, 'thorough_shards': 10}],
+        'spec_ops': ['search', 'event', 'getfact', 'getrule'],
+        'corr': 'corr.loc (CorrLoc.check_loc) on the forest profile: 3-4 locations of mixed state kinds whose parent lists change during the history (self loops, indirect loops, missing parents), every op replayed through Location.do_ancestors',
+        'rule': 'loc-forest: histories of 20-45 ops spread over 3-4 locations (SimpleLocationProvider), 14% SetParents with 0-2 random parents (loops and unknown names included), inherited and local searches, events, '
+                'adds/removes in every location; non-trivial = at least 3 distinct (op, outcome) kinds; distinct by hash of inputs',
+        'level_text': 'Coq theorems over the system model, for all systems and histories: step_frame_local, walk_touches_only_ancestors, noninterference_history (a location that no request addresses is never changed), '
+                      'inherited_search_exact_dag / dispatch_exact_dag (exactly the transitive parents, each once, over any acyclic graph), events_not_pushed_down (results do not depend on non-ancestors), '
+                      'parents_take_effect_immediately, loop_is_reported (every cycle along first parents), ancestor_walk_total (termination on every graph). Tie to the code: multi-location histories replayed op by op.',
+        'level_note': 'sys.System as LocationProvider is exercised by the C17 check; here the provider is core.SimpleLocationProvider. Error precedence with several parents (an earlier parent failing first) is part of the model and of the correspondence, not of the loop theorem.',
+        'technique': 'Coq frame/noninterference proofs over request histories and graph-walk correctness proofs + differential replay over location forests',
+        'assumptions': ['sequential histories'],
+    },
+    'C10': {
+        'props_file': 'props/C10.v',
+        'domains': [{'name': 'loc-lifecycle', 'quick': 400, 'thorough': 20000, 'thorough_shards': 10}],
+        'spec_ops': ['event', 'size', 'addfact', 'addrule', 'remfact', 'remrule', 'getfact', 'getrule', 'enablerule', 'clear', 'setparents', 'getparents', 'search'],
+        'corr': 'corr.loc (CorrLoc.check_loc) on the lifecycle profile; judges: dispatch against the index-free specification, and "every operation on a disabled location reports an error"',
+        'rule': 'loc-lifecycle: histories of 20-45 ops interleaving AddRule / overwrite / RemRule / EnableRule(true|false) / reload / location !enabled toggles with events, both state kinds, a parent in 1 of 4 cases; '
+                'non-trivial = at least 3 distinct (op, outcome) kinds; distinct by hash of inputs',
+        'refuted': ['statesize_ignores_enabled_counterexample (D36)', 'disable_then_not_enabled_counterexample', 'enable_is_not_per_id_counterexample'],
+        'level_text': 'Coq theorems over the location model: children_exact_in (a candidate fires iff enabled here and its when matches, with exactly the match bindings), disable_then_not_enabled, enable_then_enabled, disable_is_per_id, '
+                      'flag_dies_with_rule, readd_starts_enabled, flag_survives_reload, disabled_location_refuses (eleven gated methods), disabled_no_rule_fires; with C01 (dispatch_exact) and C07 (expiry) they give the fires-iff characterisation. '
+                      'Tie to the code: lifecycle histories replayed op by op, dispatch judged against the index-free specification, and every operation on a disabled location judged to fail.',
+        'level_note': 'StateSize is not gated by the enabled property (known finding D36). Two corner refutations (rule ids that collide with property-fact ids) are kept as lemmas in props/C10_open.v.',
+        'technique': 'Coq proofs over the location model (gates, property facts, cascade) + differential replay of lifecycle histories',
+        'assumptions': ['sequential histories'],
+    },
 }
